@@ -43,11 +43,16 @@ fn run_prop(ctx: &Ctx) -> Option<(Report, Meta)> {
 fn main() {
     let ctx = Ctx::from_args();
     install_panic_hook();
+    if ctx.prop == "C05-DEEP-SCAN" {
+        let n = ctx.args.first().and_then(|a| a.parse::<usize>().ok()).unwrap_or(1000);
+        frame::deep_scan_child(n);
+        return;
+    }
     if ctx.prop == "DUMP-DF-REFERENCE" {
         println!("{}", serde_json::to_string_pretty(&field::dump_df_reference()).unwrap());
         return;
     }
-    watchdog_start(60);
+    watchdog_start(if ctx.tier.thorough() { 240 } else { 60 });
     if let Some(p) = &ctx.replay {
         let code = replay::replay(&ctx, p);
         if code != 3 {
